@@ -144,8 +144,19 @@ def lookup (ren : List (Nat × Nat)) (q : Nat) : Nat :=
 def validLocation (loc : List Nat) (n : Nat) : Bool :=
   loc.all (· < n) && loc.eraseDups.length == loc.length
 
+def insertSorted (x : Nat) : List Nat → List Nat
+  | [] => [x]
+  | y :: ys => if x ≤ y then x :: y :: ys else y :: insertSorted x ys
+
+/-- `sorted(...)` on naturals (insertion sort). -/
+def sortNat (l : List Nat) : List Nat := l.foldr insertSorted []
+
 /-- `get_subgraph(location, renumbering)`; `ren = none` is the default
-renumbering (position in `location`).  Result `none` when the call raises. -/
+renumbering (position in `location`).  Result `none` when the call raises.
+The permutation check is `sorted(renumbering.values()) != list(range(len(location)))`
+(since the fix 494efa1).  An empty location passes all checks and then raises in
+the constructor (`CouplingGraph([], 0)`: calc_num_qudits = 1 > 0), which `mk?`
+reproduces. -/
 def G.subgraph (g : G) (loc : List Nat) (ren : Option (List (Nat × Nat))) : Option G :=
   if !validLocation loc g.n then none else
   let r : List (Nat × Nat) := match ren with
@@ -155,17 +166,13 @@ def G.subgraph (g : G) (loc : List Nat) (ren : Option (List (Nat × Nat))) : Opt
   let vals := r.map (·.2)
   if r.length != loc.length then none
   else if !(keys.all loc.contains && loc.all keys.contains) then none
-  else if loc.isEmpty then none     -- min() of an empty sequence raises
-  else if !(vals.foldl min (vals.headD 0) == 0 && vals.foldl max 0 == loc.length - 1) then none
+  else if sortNat vals != List.range loc.length then none
   else
     let raw := loc.flatMap (fun a => ((g.adj a).filter loc.contains).map
       (fun b => (lookup r a, lookup r b)))
     mk? raw (some loc.length)
 
 /-! ### get_subgraphs_of_size -/
-def insertSorted (x : Nat) : List Nat → List Nat
-  | [] => [x]
-  | y :: ys => if x ≤ y then x :: y :: ys else y :: insertSorted x ys
 
 /-- `_location_search`; `path` kept sorted, result = list of sorted vertex sets. -/
 def locSearch (g : G) : Nat → List (List Nat) → List Nat → Nat → Nat → List (List Nat)
